@@ -16,7 +16,7 @@ LEVEL = "exploration"
 BUDGET = {"quick": 8000, "thorough": 1200000}
 SHRINK = {"quick": True, "thorough": True}
 RULE = (
-    "Hypothesis draws a gas state on the Z-factor rectangle (as C06) with gas gravity 0.55..1.2 and a second "
+    "Hypothesis draws a gas state on the Z-factor rectangle (as C06; one case in ten towards zero pressure, p_r 1e-10..1e-4) with gas gravity 0.55..1.2 and a second "
     "pressure, an oil (as C12) with pressures on both sides of the bubble point (scalar and array calls), and a "
     "brine state (T 60..400 F, p 15..15000 psia, salinity 0..25 wt%). Non-trivial = gas reduced pressure > 0.5 "
     "and the oil pressures straddle the bubble point. Distinct = hash of the case record."
